@@ -20,6 +20,8 @@ SNIPPETS = ["x = b'a' 'b'\n", "x = (1,\n\n 2) 3\n", "a = '''m\nn\no''' = 1\n", "
             "f\"{x!r}\" 1\n", "y = f\"{x!s:>4}\" +\n", "print(f\"{a!a} {b}\" f\"{c!r}\"\n", "z = f\"{x!r}\"\nq = (\n",
             # every line indented (unexpected indent): both entry points must refuse alike
             " x = 1\n", "  x = 1\n  y = 2\n", "\tdef f():\n\t\treturn 1\n", "    if a:\n        b = (1 2)\n",
+            # an error with a one-line location right before a multi-line token (the text shown must stay within the range)
+            "x = 1 if 2 \"\"\"a\nb\"\"\"\n", "y = (1 if 2 '''p\nq\nr''')\nz = 3\n", "import a.b as c.d '''s\nt'''\n",
             # a form feed inside a line (not a line boundary)
             "x = \"a\x0cb\" 1\ny = 2\n"]
 
@@ -104,7 +106,7 @@ def outcome(P, src: str, mode: str, tmpdir: str):
             P["parse_file"](path)
         return ("tree",)
     except SyntaxError as e:      # includes IndentationError
-        return ("SyntaxError", type(e).__name__, e.lineno, e.offset, e.text, e.msg)
+        return ("SyntaxError", type(e).__name__, e.lineno, e.offset, e.text, e.msg, getattr(e, "end_lineno", None))
     except tokenize.TokenError as e:
         return ("TokenError", str(e.args[0]))
     except RecursionError:
@@ -249,6 +251,16 @@ def run(chk: common.Check, tier: str):
                     if x[2] is None or not (1 <= x[2] <= nlines + 1) or (x[3] is not None and x[3] < 0):
                         chk.violation(f"{mode} raises SyntaxError with a position outside the text: line {x[2]}, column {x[3]}",
                                       {"source": src, "entry": mode, "lineno": x[2], "offset": x[3], "lines": nlines}, True)
+                    elif x[4] and isinstance(x[4], str):
+                        # the text shown with the error consists of the source lines of the reported range, nothing else
+                        sl = src.split("\n")
+                        last = x[6] if isinstance(x[6], int) and x[6] >= x[2] else x[2]
+                        allowed = {l.rstrip("\r") for l in sl[x[2] - 1:last]}
+                        shown = [l.rstrip("\r") for l in x[4].split("\n") if l.strip()]
+                        # (the host tokenizer's own errors carry a fragment of the line: a substring is accepted)
+                        if any(not any(l in a for a in allowed) for l in shown):
+                            chk.violation(f"{mode}: the text attached to the SyntaxError is not the text of lines {x[2]}..{last}",
+                                          {"source": src, "entry": mode, "lineno": x[2], "end_lineno": x[6], "text": x[4]}, True)
             # clause (i), as a SEARCH only (no theorem is possible, DESIGN.md section 11): a text the host's own parser
             # rejects must not come back as a tree.  ast.parse stops after parsing, so compiler-stage errors do not count.
             if a[0] == "tree" and host is not None:
